@@ -292,7 +292,7 @@ pub fn compare(pred: &Prediction, obs: &Observed) -> Option<Violation> {
     if pred.stdout != obs.stdout {
         return v("stdout", format!("model {:?}, koto {:?}", pred.stdout, obs.stdout));
     }
-    if pred.result != obs.result {
+    if pred.result != obs.result && !(pred.result_alt.is_some() && obs.result.as_ref().err() == pred.result_alt.as_ref()) {
         return v("result", format!("model {:?}, koto {:?}", pred.result, obs.result));
     }
     None
@@ -1389,6 +1389,7 @@ pub fn prediction_to_json(p: &Prediction) -> Value {
         "result": match &p.result { Ok(v) => json!({"ok": v}), Err(e) => json!({"err": e}) },
         "error_occurred": p.error_occurred,
         "storm_iterations": p.storm_iterations,
+        "result_alt": p.result_alt,
         "origin_line": p.origin_line,
         "trace_lines": p.trace_lines,
     })
@@ -1422,6 +1423,7 @@ pub fn prediction_from_json(v: &Value) -> Prediction {
         },
         error_occurred: v["error_occurred"].as_bool().unwrap_or(true),
         storm_iterations: v["storm_iterations"].as_u64().unwrap_or(0),
+        result_alt: v["result_alt"].as_str().map(String::from),
         origin_line: v["origin_line"].as_u64().map(|x| x as u32),
         trace_lines: v["trace_lines"]
             .as_array()
